@@ -3,13 +3,15 @@ import re
 import math
 from collections import namedtuple
 from .._compat import integer_types, string_types
+from .number import whole_number, whole_text
 
 
 def row_label_to_index(label):
     try:
         result = int(label)
     except ValueError:
-        result = label
+        # int() also refuses a row number of more than 4300 digits
+        result = whole_number(label) if isinstance(label, string_types) and label.isdecimal() else label
     if isinstance(result, integer_types):
         return max(result - 1, -1)
     else:
@@ -18,7 +20,7 @@ def row_label_to_index(label):
 
 def row_index_to_label(row):
     if row >= 0:
-        return str(row + 1)
+        return whole_text(row + 1)
     return ''
 
 COLUMN_LABEL_BASE = 'ABCDEFGHIJKLMNOPQRSTUVWXYZ'
